@@ -329,8 +329,14 @@ func runConcCase(cc concCase, tmp string, thorough, verbose bool) {
 					continue
 				}
 				obs, xerr := extract(t.Extract, r.artifact, r.content)
+				if xerr != nil && unreadable(xerr) {
+					// see runCase: success reported and no signature the independent reader can parse
+					clean = false
+					viol("emitted-artifact-without-readable-signature", fmt.Sprintf("%s: relic reported success and wrote an artifact in which the independent reader finds no signature it can parse (%v)", who, xerr))
+					continue
+				}
 				if xerr != nil {
-					harnessError("%s: %s: artifact emitted but the harness cannot read it: %v", desc, who, xerr)
+					harnessError("%s: %s: artifact emitted but the harness cannot open it: %v", desc, who, xerr)
 					continue
 				}
 				want := concKeys[r.Name]
